@@ -162,6 +162,10 @@ class SimLoop(asyncio.BaseEventLoop):
             # nothing to do in the loop: an external actor moves, or the clock jumps
             when = self._scheduled[0]._when if self._scheduled else None
             env.external(when)
+        elif not self._stopping:
+            # a busy loop (e.g. polling with sleep(0)) neither stops the world nor the
+            # clock: running callbacks takes time, and the other processes keep going
+            env.busy_tick()
         end_time = self.time() + self._clock_resolution
         while self._scheduled:
             handle = self._scheduled[0]
@@ -262,6 +266,9 @@ class SimEnv:
         self.t_limit = prof.get("t_limit", 3600.0)
         self.hang = None
         self.probe_lines = {}  # (abs filename, lineno) -> probe name
+        self.cluster = None  # optional simlib.cluster.FakeCluster
+        self.busy_iters = 0
+        self.cache_root = None
 
     def add_line_probe(self, module, text, name):
         """count executions of the controller lines of `module` whose stripped source
@@ -293,6 +300,8 @@ class SimEnv:
         else:
             burst = sim.BURSTS[self.ch.choose(len(sim.BURSTS), "burst")]
         sim.step(p, burst)
+        if self.cluster is not None:
+            self.cluster.poll()
         if p.state == "done" and p.name in self.pool.running:
             self.pool.on_done(p)
         elif p.state == "dead" and p.name in self.pool.running:
@@ -336,6 +345,8 @@ class SimEnv:
             if self.ext_count > self.ext_budget or sim.steps > sim.max_steps or sim.now - _rt.EPOCH > self.t_limit:
                 self.hang = "budget"
                 raise StepBudgetExceeded(f"external step budget exceeded (ext={self.ext_count}, steps={sim.steps}, t={sim.now - _rt.EPOCH:.1f}s)")
+            if self.cluster is not None:
+                self.cluster.poll()
             opts = self.options(True, when)
             if when is not None and when <= sim.now:
                 return
@@ -352,6 +363,8 @@ class SimEnv:
             # nobody can move now: jump the clock to the next wake-up / timer
             wakes = [p.wake_at for p in sim.procs.values() if p.state == "sleeping"]
             cand = wakes + ([when] if when is not None else [])
+            if self.cluster is not None and self.cluster.next_event_time() is not None:
+                cand.append(self.cluster.next_event_time())
             if not cand:
                 self.deadlock = True
                 self.hang = "deadlock"
@@ -360,6 +373,14 @@ class SimEnv:
             sim.note("clock", round(sim.now - _rt.EPOCH, 6))
             if when is not None and when <= sim.now:
                 return
+
+    def busy_tick(self):
+        self.sim.now += 1e-4
+        self.busy_iters += 1
+        if self.cluster is not None:
+            self.cluster.poll()
+        if self.busy_iters % 8 == 0 and (self.workers_ready() or self.pool.can_dispatch()):
+            self.interleave(force=True)  # fairness: a busy loop never starves the others
 
     def interleave(self, force=False):
         """Let other actors make progress while the controller is inside synchronous
@@ -448,6 +469,9 @@ class SimEnv:
                 return env.pool
 
         wcf.cf = _CfShim()
+        real_cse = asyncio.create_subprocess_exec
+        if self.cluster is not None:
+            asyncio.create_subprocess_exec = self.cluster.exec
         files = {sub.__file__: "submitter.py", job.__file__: "job.py", result.__file__: "result.py"}
         tracer = self.make_tracer(files if self.trace_ctl else {})
         status, val = "ok", None
@@ -474,6 +498,7 @@ class SimEnv:
             if self.hang and status != "hang":
                 status, val = "hang", f"{self.hang}: (surfaced as {val if not isinstance(val, dict) else val.get('type')})"
             wcf.cf = cf
+            asyncio.create_subprocess_exec = real_cse
             try:
                 # drop whatever is left on the loop without running it
                 loop._ready.clear()
